@@ -30,7 +30,7 @@ Definition pr (e : expr) : str := render false (to_p e).
 (* expressions the printer and the parser agree on: known operators, existing finite constants, non-negative variable indices *)
 Fixpoint printable (e : expr) : bool :=
   match e with
-  | EInt _ => true
+  | EInt z => z <=? 9223372036854775807
   | EX k => 0 <=? k
   | EC k => (0 <=? k) && (k <? Z.of_nat (length consts)) && lit_ok (const_text k)
   | EOp1 f a => existsb (Z.eqb f) [SIN; COS; SINH; COSH; EXPONENTIAL; LOGARITHM; ABS; SQRT] && printable a
@@ -121,7 +121,7 @@ Qed.
 Lemma printable_text e : printable e = true -> text_ok (to_p e) = true.
 Proof.
   induction e as [z|k|k|f a IHa|op a IHa b IHb]; cbn [printable to_p]; intros H.
-  - destruct (Z.leb_spec 0 z) as [L|L]; cbn [text_ok]; [apply Z.leb_le; exact L|apply dec_negative; exact L].
+  - destruct (Z.leb_spec 0 z) as [L|L]; cbn [text_ok]; [rewrite H, andb_true_r; apply Z.leb_le; exact L|apply dec_negative; exact L].
   - exact H.
   - apply andb_prop in H as [_ H]. exact H.
   - apply andb_prop in H as [H1 H2]. cbn [text_ok]. rewrite H1, (IHa H2). reflexivity.
@@ -133,6 +133,7 @@ Qed.
 Lemma text_p_ok e : text_ok e = true -> p_ok e = true.
 Proof.
   induction e as [k|k|t|f a IHa|a IHa b IHb|a IHa b IHb|n pr0 w a IHa b IHb|a IHa b IHb]; cbn [text_ok p_ok]; intros H; try reflexivity; try exact H.
+  - apply andb_prop in H as [_ H]. exact H.
   - apply andb_prop in H as [Hf Ha]. rewrite (IHa Ha), andb_true_r. cbn [existsb] in Hf.
     unfold SIN, COS, SINH, COSH, EXPONENTIAL, LOGARITHM, ABS, SQRT in Hf.
     assert (Cn : f = 6 \/ f = 7 \/ f = 14 \/ f = 15 \/ f = 8 \/ f = 9 \/ f = 11 \/ f = 12) by lia.
